@@ -213,3 +213,8 @@ pub fn replay(sub: &str, case: &Value) -> Result<(), Fail> {
         _ => Err(Fail::new("replay-unknown-sub", sub.to_string())),
     }
 }
+
+pub fn fuzz_targets() -> Vec<crate::fuzz::Target> {
+    use crate::fuzz::from_strategy;
+    vec![from_strategy("c13_ring", "C13", "random", hist_random, check_hist)]
+}
